@@ -27,19 +27,19 @@ theorem getD0_eq (c : Sys) : (c.rds.getD 0 {}).mapped = (cv c).m0 := rfl
 
 theorem DUse.flt (s : Nat) (cl : Client) : ∀ a ∈ fltActs, ∀ st, a.guard st = true → DUse s st cl → DUse s (a.upd st) cl := by
   intro a ha st hg h
-  obtain ⟨k1, k2, k3, k4, k5, k6, k7, k8, k9, k10, k11, k12, k13⟩ := h
+  obtain ⟨k1, k2, k3, k4, k5, k6, k7, k8, k9, k10, k11, k12, k13, k14⟩ := h
   have hf : (step st.filtCh (.rmap 0)).1 = st.filtCh := by
     have := fresh_rmap st.filtCh.c.cap; rw [← k2] at this; exact this
   unfold fltActs at ha
   each_action ha
   all_goals (simp only [setFltPc, fltRead, chanOp, hf] at hg ⊢)
-  all_goals (exact ⟨k1, k2, k3, k4, k5, k6, k7, k8, k9, k10, k11, k12, k13⟩)
+  all_goals (exact ⟨k1, k2, k3, k4, k5, k6, k7, k8, k9, k10, k11, k12, k13, k14⟩)
 
 set_option maxHeartbeats 4000000 in
 theorem DUse.snk (s : Nat) (cl : Client) (rs : DevState) : ∀ a ∈ snkActs s, ∀ st, a.guard st = true → TInv s st cl rs →
     DUse s st cl → DUse s (a.upd st) cl := by
   intro a ha st hg ht h
-  obtain ⟨k1, k2, k3, k4, k5, k6, k7, k8, k9, k10, k11, k12, k13⟩ := h
+  obtain ⟨k1, k2, k3, k4, k5, k6, k7, k8, k9, k10, k11, k12, k13, k14⟩ := h
   have t1 := ht.start_snk; have t3 := ht.joined_snk; have t4 := ht.start_src; have hs8 := stage_le cl.pc s
   have hn1 : 1 ≤ st.sinkCh.rds.length := by have := k3; simp only [cv] at this; split at this <;> omega
   have hrm := cv_rmap0 k1 hn1
@@ -47,6 +47,9 @@ theorem DUse.snk (s : Nat) (cl : Client) (rs : DevState) : ∀ a ∈ snkActs s, 
   have hac := cv_accept k1 false
   have hml := mapped_pos0 k1 hn1
   have hch := clHolds0_stop cl.pc s
+  have hirm := fun h => @idle_rmap st.sinkCh h 0
+  have hiru := fun h k => @idle_runmap st.sinkCh h 0 k
+  have hirf := fun h => @idle_refuse st.sinkCh h
   unfold snkActs at ha
   each_action ha
   all_goals (simp only [setSnkPc, snkRead, notifySink, chanOp, outLen_eq, getD0_eq, getD_idx0, Bool.and_eq_true, Bool.or_eq_true, decide_eq_true_eq, Bool.not_eq_true', ne_eq] at hg ⊢)
@@ -78,13 +81,15 @@ theorem DUse.snk (s : Nat) (cl : Client) (rs : DevState) : ∀ a ∈ snkActs s, 
   all_goals (first | (constructor <;> (first | assumption | ((try simp only [snkHold, srcHold] at *) <;> grind))))
 
 set_option maxHeartbeats 4000000 in
-theorem DUse.src (s : Nat) (cl : Client) (rs : DevState) : ∀ a ∈ srcActs s, ∀ st, a.guard st = true → TInv s st cl rs → st.cam.emptyEvery = 0 →
+theorem DUse.src (s : Nat) (cl : Client) (rs : DevState) : ∀ a ∈ srcActs s, ∀ st, a.guard st = true → TInv s st cl rs →
     DUse s st cl → DUse s (a.upd st) cl := by
-  intro a ha st hg ht he h
-  obtain ⟨k1, k2, k3, k4, k5, k6, k7, k8, k9, k10, k11, k12, k13⟩ := h
+  intro a ha st hg ht h
+  obtain ⟨k1, k2, k3, k4, k5, k6, k7, k8, k9, k10, k11, k12, k13, k14⟩ := h
   have t1 := ht.start_src; have t2 := ht.after_err_stop
   have hnf : st.cam.failAt = none → camFault st = false := by intro hf; simp [camFault, faultHits, hf]
-  have hne : camEmpty st = false := by simp [camEmpty, he]
+  have hne : st.cam.emptyEvery = 0 → camEmpty st = false := by intro he; simp [camEmpty, he]
+  have hiab := idle_wabort st.sinkCh
+  have hcid := @wcommit_idle st.sinkCh
   -- what the channel operations of this thread do, in the view
   have hwf := cv_wmap_fail st.sinkCh st.F
   have hwo := fun b => cv_wmap_ok k1 st.F b
@@ -110,7 +115,10 @@ theorem DUse.src (s : Nat) (cl : Client) (rs : DevState) : ∀ a ∈ srcActs s, 
   -- src.abort
   case inr.inr.inr.inr.inr.inr.inr.inr.inr.inr.inr.inr.inr.inr.inr.inr.inr.inl =>
     have hsh : srcHold st.src.pc = true := by (have := hg.1; simp_all [srcHold])
-    have hp : st.sinkCh.pending = true := k7 hsh
+    have hp : st.sinkCh.pending = true := by
+      rcases k7 hsh with h | h
+      · exact h
+      · have := hg.1; rw [h.1] at this; cases this
     obtain ⟨hok, hcv⟩ := hab hp
     constructor
     all_goals (try simp only [hcv])
@@ -118,11 +126,20 @@ theorem DUse.src (s : Nat) (cl : Client) (rs : DevState) : ∀ a ∈ srcActs s, 
   -- src.commit
   case inr.inr.inr.inr.inr.inr.inr.inr.inr.inr.inr.inr.inr.inr.inr.inr.inr.inr.inl =>
     have hsh : srcHold st.src.pc = true := by (have := hg.1; simp_all [srcHold])
-    have hp : st.sinkCh.pending = true := k7 hsh
-    obtain ⟨hok, hcv⟩ := hcm hp
-    constructor
-    all_goals (try simp only [hcv])
-    all_goals (first | assumption | ((try simp only [srcHold] at *) <;> grind))
+    by_cases hcn : st.src.cur = none
+    · -- after an aborted write (empty frame): the unmap changes nothing
+      have hs : (step st.sinkCh Op.wcommit).1 = st.sinkCh := hcid (k14 hg.1 hcn)
+      constructor
+      all_goals (try simp only [hs])
+      all_goals (first | assumption | ((try simp only [srcHold] at *) <;> grind))
+    · have hp : st.sinkCh.pending = true := by
+        rcases k7 hsh with h | h
+        · exact h
+        · exact absurd h.2 hcn
+      obtain ⟨hok, hcv⟩ := hcm hp
+      constructor
+      all_goals (try simp only [hcv])
+      all_goals (first | assumption | ((try simp only [srcHold] at *) <;> grind))
   all_goals (first | (constructor <;> (first | assumption | ((try simp only [srcHold] at *) <;> grind))))
 
 theorem runmap1_bad {c : Sys} (_h : Ok c) (k : Nat) (hn : (cv c).nrd ≤ 1) : (step c (.runmap 1 k)).1 = c :=
